@@ -647,8 +647,17 @@ func genSessionCase(r *rand.Rand) sessionCase {
 
 // runSessionCase drives one connection of the scripted server and returns its trace
 func runSession(ss *scriptedServer, index int, c sessionCase, viol func(string, map[string]interface{})) (cmd, trace string) {
+	return runSessionThen(ss, index, c, viol, nil)
+}
+
+// runSessionThen: connected() is called as soon as the connection has been handed to the accept loop (session ids are given
+// in accept order: a caller starting several sessions waits for it before handing over the next connection)
+func runSessionThen(ss *scriptedServer, index int, c sessionCase, viol func(string, map[string]interface{}), connected func()) (cmd, trace string) {
 	t0 := time.Now()
 	mc, sid := ss.connect(index, c.sauth, append([]behaviour(nil), c.script...), c.chunk)
+	if connected != nil {
+		connected()
+	}
 	var sc []string
 	for _, b := range c.script {
 		sc = append(sc, b.text())
@@ -1089,13 +1098,12 @@ func suiteSession(args []string) {
 			started := make(chan struct{})
 			go func() {
 				defer wg.Done()
-				close(started)
-				cmd, tr := runSession(ss, idx, cases[j], viol)
+				cmd, tr := runSessionThen(ss, idx, cases[j], viol, func() { close(started) })
 				results[j] = res{cmd, tr}
 			}()
+			// accept order = index order: the next connection is handed over only after this one has been (the listener's queue
+			// is FIFO and one accept loop takes from it) - no reliance on timing
 			<-started
-			// make sure accept order = index order
-			time.Sleep(time.Millisecond)
 			connectMu.Unlock()
 		}
 		wg.Wait()
